@@ -259,3 +259,41 @@ Theorem C08_rf_kick_slice_generated :
 Proof. exact rf_kick_slice_generated. Qed.
 Print Assumptions C08_rf_kick_slice_generated.
 End RFGenFamily.
+
+(** ** the loop nests of KickMap::apply (family st3kick): [Gen/Gen_KickLoop.v] (regenerated on every run) holds both nests
+    and the list of members the function mentions.  Every bunch's every row is transformed from that row's data and the
+    table alone (no other bunch's data enters: a clamp into bunch 0's values, a bunch skipped by the filling pattern are
+    refused by the translator), and the function does not read a clamp flag: `--InterpolateClamped` is ignored by the CPU
+    kick, so a run with the flag equals the run without it (the correspondence runs both). *)
+Module KickLoopFamily.
+From Coq Require Import String.
+From Inovesa Require Import Gen.Gen_KickLoop Model.KickLoop Proofs.KickLoopP.
+
+Theorem C08_kick_apply_every_bunch_row_local :
+  forall nb n it (H : Z -> Z * Qc) (D D' out0 out0' : Z -> Qc) b x y,
+    (0 < n)%Z -> (0 <= b < nb)%Z -> (0 <= x < n)%Z -> (0 <= y < n)%Z ->
+    ((forall s, D (didx n b x s) = D' (didx n b x s)) ->
+     kick_y_loops nb n n it (nb - 1) H D out0 (didx n b x y) = kick_y_loops nb n n it (nb - 1) H D' out0' (didx n b x y)) /\
+    ((forall s, D (didx n b s y) = D' (didx n b s y)) ->
+     kick_x_loops nb n n it (nb - 1) H D out0 (didx n b x y) = kick_x_loops nb n n it (nb - 1) H D' out0' (didx n b x y)).
+Proof. exact kick_apply_row_local. Qed.
+Print Assumptions C08_kick_apply_every_bunch_row_local.
+
+Theorem C08_kick_apply_every_cell :
+  forall nb n it (H : Z -> Z * Qc) (D out0 : Z -> Qc) b x y,
+    (0 < n)%Z -> (0 <= b < nb)%Z -> (0 <= x < n)%Z -> (0 <= y < n)%Z ->
+    kick_y_loops nb n n it (nb - 1) H D out0 (didx n b x y) = apply_y_cell n nb it H D b x y /\
+    kick_x_loops nb n n it (nb - 1) H D out0 (didx n b x y) = apply_x_cell n nb it H D b x y.
+Proof. exact kick_apply_every_cell. Qed.
+Print Assumptions C08_kick_apply_every_cell.
+
+Theorem C08_kick_apply_reads_no_clamp : ~ In "_clamp"%string kl_members.
+Proof. exact kick_apply_reads_no_clamp. Qed.
+Print Assumptions C08_kick_apply_reads_no_clamp.
+
+Theorem C08_kick_apply_members :
+  forall m, In m kl_members ->
+            In m ["PhaseSpace::nb"; "_hinfo"; "_in"; "_ip"; "_kickdirection"; "_lastbunch"; "_meshsize_kd"; "_meshsize_pd"; "_out"]%string.
+Proof. exact kick_apply_members. Qed.
+Print Assumptions C08_kick_apply_members.
+End KickLoopFamily.
